@@ -315,6 +315,16 @@ class Render:
         return join_words(self.words(q))
 
 
+def quote_path(p):
+    """spell a root path so that it is one token: quoted unless it is plain"""
+    if p and all(c.isalnum() or c in "._/" for c in p):
+        return p
+    for q in "'\"`":
+        if q not in p:
+            return q + p + q
+    return None
+
+
 def join_words(ws):
     """single-argument spelling: words separated by one space; brackets/commas attached as written"""
     out = ""
